@@ -75,7 +75,7 @@ def gen_case(rng, tier, index):
         ops.append({"ws": w, "upload": rng.random() < 0.5,
                     "download": rng.choice(["no", "yes", "deps", "forced-fallback"]),
                     "jobs": rng.choice([1, 2, 4]), "seed": rng.getrandbits(32),
-                    "shared": rng.random() < 0.7})
+                    "shared": rng.random() < 0.7, "no_audit": rng.random() < 0.12})
     return {"model": model, "ops": ops, "meta": {"VERIFKEY": "v%d" % rng.randrange(100)}}
 
 def directed_cases(tier):
@@ -96,6 +96,16 @@ def directed_cases(tier):
         if k:
             ops += [b("B"), {"tamper": "add-file", "ws": "B", "pick": 0}, b("B")]
         out.append({"model": model, "ops": ops, "meta": {"VERIFKEY": "d%d" % k}, "directed": "shared package returns to an installed Build-Id"})
+    # an invocation without audit trail in the middle of a history
+    for k in range(2):
+        model = projgen.gen_valid_project(rng, nmin=3, nmax=4, features={"import", "diamond", "vars"})
+        e = projgen.gen_edit(rng, model, [model], ["src_modify", "salt"])
+        e2 = projgen.gen_edit(rng, model, [model], ["salt"])
+        if e is None or e2 is None:
+            continue
+        b = lambda na: {"ws": "A", "upload": False, "download": "no", "jobs": 1, "seed": rng.getrandbits(32), "shared": False, "no_audit": na}
+        out.append({"model": model, "ops": [b(False), {"edit": e}, b(True), {"edit": e2}, b(False)], "meta": {"VERIFKEY": "n%d" % k},
+                    "directed": "--no-audit in the middle of a history"})
     return out
 
 # -- independent re-implementation of the artifact-id digest (documented in audit-trail.rst / audit.py)
@@ -164,7 +174,7 @@ def check_trail(tree, where):
         todo.extend(deps_of(refs[i]))
     return None
 
-def _verify_workspace(proj, info, executed, meta, stats, provenance_seen):
+def _verify_workspace(proj, info, executed, meta, stats, provenance_seen, may_miss=False, no_audit=False):
     """info = bobq query with detail+bid."""
     from bob.utils import hashDirectory
     hash2canon = {}
@@ -220,7 +230,12 @@ def _verify_workspace(proj, info, executed, meta, stats, provenance_seen):
             ap = os.path.join(os.path.dirname(ws), "audit.json.gz")
             where = "%s[%s]" % (path, label)
             if not os.path.exists(ap):
+                if may_miss:
+                    stats.inc("probe_trail_missing_after_no_audit")
+                    continue
                 return "%s: audit.json.gz missing" % where
+            if no_audit and os.path.dirname(s["ws"]) in executed and not os.path.islink(ap):
+                return "%s: the step was executed with --no-audit but a trail (of an earlier execution) is still there" % where
             try:
                 tree = _load(ap)
             except (OSError, ValueError) as e:
@@ -378,6 +393,7 @@ def run_case(case):
         for p in projs.values():
             os.makedirs(p)
         mat = {"A": None, "B": None}
+        tainted = set()     # workspaces in which some invocation ran with --no-audit
         for n, op in enumerate(case["ops"]):
             if "edit" in op:
                 m2 = projgen.apply_edit(model, op["edit"], hist)
@@ -407,6 +423,12 @@ def run_case(case):
             if op["upload"]:
                 argv.append("--upload")
             argv.append("--shared" if op.get("shared", True) else "--no-shared")
+            if op.get("no_audit"):
+                # the user opts out for this invocation: steps it executes lose their trail (a stale one
+                # must not survive), and later invocations may be unable to write trails above them
+                argv.append("--no-audit")
+                tainted.add(w)
+                stats.inc("invocations_without_audit")
             for k, v in sorted(case["meta"].items()):
                 argv += ["-M", "%s=%s" % (k, v)]
             argv.append("root")
@@ -418,7 +440,8 @@ def run_case(case):
                 continue
             executed = {os.path.dirname(s) for s in r.scripts_run()}
             info = bobq.query(proj, want=("detail", "bid"))
-            err = _verify_workspace(proj, info, executed, case["meta"], stats, prov)
+            err = _verify_workspace(proj, info, executed, case["meta"], stats, prov,
+                                    may_miss=w in tainted, no_audit=bool(op.get("no_audit")))
             if err is None:
                 err = _verify_archive(arch, stats)
             if err is None:
